@@ -68,6 +68,87 @@ func copyFile(src, dst string) error {
 	return os.WriteFile(dst, b, 0644)
 }
 
+// systematicDicts enumerates every type x encrypt x has_tag x concat x size combination, at top level and inside a
+// vendor, keeps those the generator accepts on their own, and packs them into dictionaries of at most 200 attributes
+func systematicDicts() []*dictionary.Dictionary {
+	type cand struct {
+		a      *dictionary.Attribute
+		vendor bool
+	}
+	var ok []cand
+	seq := 0
+	for t := dictionary.AttributeString; t <= dictionary.AttributeIPv4Prefix; t++ {
+		for _, enc := range []int{0, 1, 2} {
+			for _, tag := range []bool{false, true} {
+				for _, concat := range []bool{false, true} {
+					for _, size := range []int{0, 6} {
+						for _, vendor := range []bool{false, true} {
+							if size > 0 && t != dictionary.AttributeOctets {
+								continue
+							}
+							seq++
+							a := &dictionary.Attribute{Name: fmt.Sprintf("Sys-%s-%d", strings.Title(t.String()), seq), OID: dictionary.OID{1}, Type: t}
+							if enc > 0 {
+								a.FlagEncrypt.Valid, a.FlagEncrypt.Int = true, enc
+							}
+							if tag {
+								a.FlagHasTag.Valid, a.FlagHasTag.Bool = true, true
+							}
+							if concat {
+								a.FlagConcat.Valid, a.FlagConcat.Bool = true, true
+							}
+							if size > 0 {
+								a.Size.Valid, a.Size.Int = true, size
+							}
+							d := &dictionary.Dictionary{}
+							if vendor {
+								d.Vendors = []*dictionary.Vendor{{Name: "Sys", Number: 4242, Attributes: []*dictionary.Attribute{a}}}
+							} else {
+								d.Attributes = []*dictionary.Attribute{a}
+							}
+							if _, err := (&dictionarygen.Generator{Package: "probe"}).Generate(d); err == nil {
+								ok = append(ok, cand{a, vendor})
+							}
+						}
+					}
+				}
+			}
+		}
+	}
+	var out []*dictionary.Dictionary
+	cur := &dictionary.Dictionary{}
+	nt, nv := 0, 0
+	flush := func() {
+		if nt+nv > 0 {
+			out = append(out, cur)
+		}
+		cur = &dictionary.Dictionary{}
+		nt, nv = 0, 0
+	}
+	for _, c := range ok {
+		if c.vendor {
+			if nv == 200 {
+				flush()
+			}
+			if len(cur.Vendors) == 0 {
+				cur.Vendors = []*dictionary.Vendor{{Name: "Sys", Number: 4242}}
+			}
+			nv++
+			c.a.OID = dictionary.OID{nv}
+			cur.Vendors[0].Attributes = append(cur.Vendors[0].Attributes, c.a)
+		} else {
+			if nt == 200 {
+				flush()
+			}
+			nt++
+			c.a.OID = dictionary.OID{nt}
+			cur.Attributes = append(cur.Attributes, c.a)
+		}
+	}
+	flush()
+	return out
+}
+
 // runSynthetic builds the second-stage binary over k synthetic packages and runs prop in it.
 func runSynthetic(c *Ctx, r *Rng, k int, prop string) {
 	if os.Getenv("VERIF_SYNTH_STAGE2") != "" {
@@ -75,7 +156,9 @@ func runSynthetic(c *Ctx, r *Rng, k int, prop string) {
 	}
 	tmp := filepath.Join(c.Verif, "build", fmt.Sprintf("synth.%d", os.Getpid()))
 	os.RemoveAll(tmp)
-	defer os.RemoveAll(tmp)
+	if os.Getenv("VERIF_KEEP_SYNTH") == "" {
+		defer os.RemoveAll(tmp)
+	}
 	if err := os.MkdirAll(filepath.Join(tmp, "cmd", "run"), 0755); err != nil {
 		c.Note("synthetic stage skipped: %v", err)
 		return
@@ -93,8 +176,14 @@ func runSynthetic(c *Ctx, r *Rng, k int, prop string) {
 	}
 	n := 0
 	kinds := map[string]int{}
+	sys := systematicDicts()
+	k += len(sys)
 	for tries := 0; n < k && tries < 50*k; tries++ {
 		g := genDict(r, false)
+		if len(sys) > 0 {
+			g = &gdict{d: sys[0]}
+			sys = sys[1:]
+		}
 		g.ignore, g.ext = nil, map[string]string{}
 		// drop the VALUEs that referred to an external attribute
 		var vals []*dictionary.Value
@@ -131,6 +220,10 @@ func runSynthetic(c *Ctx, r *Rng, k int, prop string) {
 			}
 		}
 		n++
+	}
+	if n == 0 {
+		c.Note("synthetic stage skipped: no synthetic dictionary was accepted")
+		return
 	}
 	run := func(dir string, name string, args ...string) (string, error) {
 		cmd := exec.Command(name, args...)
